@@ -2,14 +2,15 @@ from propcommon import *  # noqa
 
 CFG = dict(
     level="proof",
-    lean_modules=["ElysModel.Props.C04"],
-    props_files=["ElysModel/Props/C04.lean"],
+    lean_modules=["ElysModel.Props.C04", "ElysModel.Props.C04Src"],
+    pre_cmds=[GO2LEAN],
+    props_files=["ElysModel/Props/C04.lean", "ElysModel/Props/C04Src.lean"],
     runs=[dict(mode="c04", n_quick=100, n_thorough=600, shards_quick=12, shards_thorough=14)],
     rule="blocks of 1-8 swap requests on the real app through FinalizeBlock+Commit: exact-in and exact-out, 1 and 2 hops, both directions on three uatom/uusdc pools (one balancer, two "
          "oracle) and the uelys/uusdc pool, limits set at / 0.1% off / one unit beyond a dry-run quote, each request with its own fresh sender and (half of the time) a distinct fresh "
          "recipient, price-moving swaps by other users interleaved in the same block; an evaluation is one request or one block; non-trivial = distinct request lines",
-    trusted_base=COMMON_TB + ["a request's effect is the whole-bank balance delta of its dedicated sender and recipient accounts"],
-    assumptions=["what one applied request does to balances (RouteExactAmountIn/Out) is checked on the real code, not modelled; selection order and stacked-slippage comparison are abstract in the model"],
+    trusted_base=COMMON_TB + [SRC_TB, "a request's effect is the whole-bank balance delta of its dedicated sender and recipient accounts"],
+    assumptions=[SRC_ASSUME, "what one applied request does to balances (RouteExactAmountIn/Out) is checked on the real code, not modelled; selection order and stacked-slippage comparison are abstract in the model"],
     explanation="Theorems about the batch loop for every apply function and every slippage measure: it always ends with an empty queue, a written request leaves the queue in the same "
                 "iteration (at most once), and an iteration moves the state by at most one successful apply (failed attempts leave nothing). Every real request is judged: refused => no "
                 "change; executed exact-in => sender debited exactly the input, recipient credited >= min; executed exact-out => sender debited <= max, recipient credited >= out; nobody "
